@@ -47,13 +47,13 @@ REAL_VS_STUB = {
     'stub_or_simulator_owned': ['all user callbacks', 'which container is mutated how at which callback', 'GC timing'],
 }
 EXPECTED_PROBES = ('mismatch-sweep', 'mut:rotate', 'index-sweep', 'leafcount-sweep', 'mut:delete_front', 'mut:delete_back', 'mut:clear', 'mut:append', 'mut:replace', 're:iter_next',
-                   're:flatten', 're:unflatten', 're:register', 're:gc', 'outcome:exception', 'outcome:consistent')
+                   're:flatten', 're:unflatten', 're:register', 're:gc', 're:dictmode', 'outcome:exception', 'outcome:consistent')
 
 TRAVERSALS = ('flatten', 'flatten_with_path', 'iter', 'flatten_up_to', 'map', 'map_with_path', 'broadcast_prefix',
               'broadcast_common', 'prefix_errors', 'from_collection', 'leaves', 'structure', 'is_prefix_after', 'unflatten',
               'walk', 'all_leaves', 'transpose_map', 'one_level')
 MUTATIONS = ('delete_front', 'delete_back', 'clear', 'append', 'replace', 'rotate')
-REENTRIES = ('iter_next', 'flatten', 'unflatten', 'register', 'gc')
+REENTRIES = ('iter_next', 'flatten', 'unflatten', 'register', 'gc', 'dictmode')
 
 
 def tier_config(tier):
@@ -431,6 +431,12 @@ def run_reentry(job, io):
                         elif how == 'gc':
                             applied[0] = 'gc'
                             gc.collect()
+                        elif how == 'dictmode':
+                            applied[0] = 'mode'
+                            with optree.dict_insertion_ordered(True, namespace=scn.ns):
+                                optree.tree_leaves(scn.tree2, **scn.kw)
+                            with optree.dict_insertion_ordered(False, namespace=GLOBAL):
+                                pass
                     except (StopIteration, ValueError, TypeError, RuntimeError, RecursionError, KeyError, IndexError):
                         pass
                     finally:
@@ -545,6 +551,26 @@ def run_depth(job, io):
         od = OrderedDict()
         od['k'] = [od]
         cases.append(('odict-list', od))
+        dd = defaultdict(list)
+        dd['k'] = dd
+        cases.append(('defaultdict', dd))
+        lst = []
+        lst.append(NTD(lst))
+        cases.append(('namedtuple-list', lst[0]))
+        lst2 = []
+        lst2.append(U.make_structseq([lst2] + [0] * 8))
+        cases.append(('structseq-list', lst2))
+        tl = []
+        tl.append((1, {'x': (tl,)}))
+        cases.append(('tuple-dict-tuple-list', tl))
+        for style, cls in ((1, U.CB), (2, U.CC), (3, U.CD)):
+            reg.register(cls, 'ns', style=style)
+            nn = cls([])
+            nn.children.append(nn)
+            cases.append(('custom-style%d' % style, nn))
+            nm = cls([])
+            nm.children.append([{'q': nm}])
+            cases.append(('custom-style%d-via-list-dict' % style, nm))
         for cname, tree in cases:
             for tname, f in trav.items():
                 io.progress({'site': 'depth:selfref:%s:%s' % (cname, tname)})
@@ -555,7 +581,10 @@ def run_depth(job, io):
                     keys.add('depth|selfref|%s|%s|RE' % (cname, tname))
                     probes['depth:RecursionError'] += 1
         # break the cycles so that the collector has nothing odd to do
-        a.clear(), d.clear(), dq.clear(), n.children.clear(), od.clear()
+        a.clear(), d.clear(), dq.clear(), n.children.clear(), od.clear(), dd.clear(), lst.clear(), lst2.clear(), tl.clear()
+        for _, tree in cases:
+            if isinstance(tree, U.Node):
+                tree.children.clear()
     else:
         # bottoms: what sits at the deepest level — a leaf, or a childless NODE (which a traversal may treat differently
         # from a leaf when it decides where to count depth)
